@@ -1138,10 +1138,12 @@ def classify(w):
                 and ma.cats["COVARIATE"] < mb.cats["COVARIATE"]:
             return "eq-covariate-one-directional"
         if cls == "eq:false-for-equal":
-            pa = [st for st in a if st[0] == "PERIPHERALS"]
-            pb = [st for st in b if st[0] == "PERIPHERALS"]
-            if pa and pb and pa != pb:
-                return "eq-peripherals-statementwise"
+            # PERIPHERALS / INDIRECTEFFECT are compared as tuples of statements: same features, written differently
+            for kind_ in ("PERIPHERALS", "INDIRECTEFFECT"):
+                sa = [st for st in a if st[0] == kind_]
+                sb = [st for st in b if st[0] == kind_]
+                if sa and sb and sa != sb:
+                    return "eq-statementwise-peripherals-indirect"
         if cls.startswith("sub:result-unusable:TypeError") or (cls.startswith("sub:exception:TypeError")
                                                                 and "has no len()" in what):
             if any(ma.cats[c] and ma.cats[c] < mb.cats[c] for c in ("DIRECT", "EFFECTCOMP", "METABOLITE")):
